@@ -380,7 +380,7 @@ def run(ctx: Any) -> None:
         {
             "P_C04": ["C04_obs_is_run_pipe", "C04_clean_after", "C04_unary_clean_whatever_the_callback", "C04_history_correct", "C04_next_call_correct",
                       "C04_next_call_reference", "C04_no_stuck"],
-            "T_WireConn": ["variant_tie", "C04_clean_after_src", "C04_next_call_correct_src", "C04_no_stuck_src"],
+            "T_WireConn": ["variant_tie", "unary_handlers_tie", "C04_clean_after_src", "C04_next_call_correct_src", "C04_no_stuck_src", "C04_no_uncaught_fault_src", "C04_unary_clean_src", "C04_faults_covered_src"],
             "T_Wire": ["wire_handlers_tie"],
         },
     )
